@@ -311,6 +311,27 @@ theorem ties_split_scaled :
       (some (1 / 2 ^ 27), some (2 ^ 27), some 1) := by
   decide +kernel
 
+/-- **Dekker's product with the default options** (`mul_dekker(x, y)`, i.e. scale=True): for normal x, y with
+|x|, |y| ≤ x_max whose product's error term cannot underflow, absent overflow: h = RN(x·y), h + l = x·y. -/
+theorem dekker_product_scaled (q : QFmt) (r : ℚ → ℚ) (hr : IsRN q r) (f : Fmt) (xmb zb oneb cb invb nb : Nat) (s t : ℕ) (Xm : ℚ)
+    (hC : (decode f cb).toRat? = some (2 ^ s + 1)) (hXm : (decode f xmb).toRat? = some Xm) (hZ : (decode f zb).toRat? = some 0)
+    (h1 : (decode f oneb).toRat? = some 1) (hi : (decode f invb).toRat? = some (1 / 2 ^ t)) (hN : (decode f nb).toRat? = some (2 ^ t))
+    (h2s : q.p ≤ 2 * s) (h2s2 : 2 * s ≤ q.p + 2) (hs2 : s + 2 ≤ q.p)
+    (kx ky ex ey : ℤ) (hkx1 : 2 ^ (q.p - 1) ≤ |kx|) (hkx2 : |kx| < 2 ^ q.p) (hky1 : 2 ^ (q.p - 1) ≤ |ky|) (hky2 : |ky| < 2 ^ q.p)
+    (hex : q.emin ≤ ex - t) (hey : q.emin ≤ ey - t) (he : q.emin ≤ ex + ey)
+    (x y : ℚ) (hx : x = (kx : ℚ) * 2 ^ ex) (hy : y = (ky : ℚ) * 2 ^ ey) (hxm : |x| ≤ Xm) (hym : |y| ≤ Xm) :
+    evalQ f r (mulDekkerScale xmb zb oneb cb invb nb) mulDekkerScaleOuts [x, y] = some [r (x * y), x * y - r (x * y)] :=
+  EFT.mulDekkerScale_prog hr f xmb zb oneb cb invb nb Xm hC hXm hZ h1 hi hN h2s h2s2 hs2 hkx1 hkx2 hky1 hky2 hex hey he x y hx hy hxm hym
+
+/-- tie: the regenerated default-option Dekker products are the specification program -/
+theorem ties_dekker_scaled :
+    (mul_dekker_scale_f16.nodes = mulDekkerScale 31680 0 15360 21520 9216 21504 ∧ mul_dekker_scale_f16.outs = mulDekkerScaleOuts) ∧
+    (mul_dekker_scale_f32.nodes = mulDekkerScale 2139090944 0 1065353216 1166018560 964689920 1166016512 ∧
+      mul_dekker_scale_f32.outs = mulDekkerScaleOuts) ∧
+    (mul_dekker_scale_f64.nodes = mulDekkerScale 9218868437093187584 0 4607182418800017408 4728779608772575232 4485585228861014016
+        4728779608739020800 ∧ mul_dekker_scale_f64.outs = mulDekkerScaleOuts) := by
+  decide +kernel
+
 /-- the splitting constants of the three formats, as bit patterns, and their values 2^⌈p/2⌉ + 1 -/
 theorem split_constants :
     (decode binary16 21520).toRat? = some (2 ^ 6 + 1) ∧ (decode binary32 1166018560).toRat? = some (2 ^ 12 + 1) ∧
